@@ -7,6 +7,9 @@
 import json, math, os, re, sys
 import vf
 
+if hasattr(sys, "set_int_max_str_digits"):
+    sys.set_int_max_str_digits(0)          # products of 150 multi-limb moduli are printed in decimal
+
 AREA = "C14"
 SITE_COPY = "IntRNSsystem::IntRNSsystem(const IntRNSsystem&)"
 KLASS_COPY = "copied system, size>=2"
